@@ -519,7 +519,10 @@ def run_check(prop, module, tier, seed):
         if tr:
             print(tr)
 
-    n_obl = len(results)
+    # obligations tolerated as listed known findings are reported separately (known_findings_applied)
+    known_keys = set(ck for (_, ck) in known_hits)
+    n_known = len([r for r in refuted if clause_key(r["name"]) in known_keys])
+    n_obl = len(results) - n_known
     n_dis = len(proved)
     wall = time.time() - t0
     level = meta.get("level", "proof")
